@@ -6,8 +6,10 @@ CONSTANTS
   PruneBeforeWrite = FALSE
   LooseBeforePacked = TRUE
   StaleSnapshot = FALSE
+  StaleShortcut = FALSE
 INVARIANT VisIsAbs
 INVARIANT CasSound
+INVARIANT ShortcutSound
 INVARIANT AddSound
 INVARIANT DelSound
 INVARIANT ReadSound
